@@ -25,22 +25,23 @@ RTOL = 1e-12      # sampling attributes (floats vs exact rationals)
 ATOL_ARR = 1e-9   # arrays: |a-b| <= ATOL_ARR * max|expected| (the same SciPy calls; fs may differ by one ulp)
 
 # ------------------------------------------------------------------------------------------------ operations
-# ("dec", q, kw) | ("det", kw) | ("filt", Wn, order, btype) | ("rb",) | ("add",)
+# ("dec", q, kw) | ("det", kw) | ("filt", Wn, order, btype) | ("rb",) | ("add",) = add_algorithms(a fresh instance)
+# | ("readd",) = add_algorithms(the instance added last, same object and name; a fresh one when none was added yet)
 ALPHA = {
     "A": [("dec", 2, {}), ("dec", 3, {"ftype": "fir"}), ("det", {"type": "linear"}), ("det", {"type": "constant"}),
           ("filt", 1.5, 4, "lowpass"), ("filt", [0.5, 2.0], 2, "bandpass"), ("rb",), ("add",),
-          ("dec", 2, {"n": 4, "zero_phase": False})],
+          ("dec", 2, {"n": 4, "zero_phase": False}), ("readd",)],
     "B": [("dec", 5, {}), ("dec", 4, {"ftype": "fir", "n": 30}), ("det", {}), ("det", {"type": "linear", "bp": [40, 90]}),
           ("filt", 2.0, 3, "highpass"), ("filt", [1.0, 2.5], 2, "bandstop"), ("rb",), ("add",),
-          ("dec", 2, {"ftype": "iir", "n": 6, "zero_phase": True})],
+          ("dec", 2, {"ftype": "iir", "n": 6, "zero_phase": True}), ("readd",)],
     "C": [("dec", 3, {"zero_phase": False}), ("dec", 2, {"ftype": "fir", "zero_phase": False}), ("det", {"type": "constant", "bp": 0}),
           ("det", {"bp": [100]}), ("filt", 1.0, 2, "lowpass"), ("filt", [0.25, 1.75], 3, "bandpass"), ("rb",), ("add",),
-          ("dec", 4, {"n": 5})],
+          ("dec", 4, {"n": 5}), ("readd",)],
 }
 # malformed stream: undocumented keyword names (TypeError expected), one per method that takes **kwargs
 BAD_OPS = [("dec", 2, {"foo": 1}), ("det", {"typ": "linear"}), ("dec", 3, {"ftype": "fir", "order": 8}), ("det", {"type": "linear", "breakpoints": [10]})]
 
-METHOD = {"dec": "decimate_data", "det": "detrend_data", "filt": "filter_data", "rb": "rollback", "add": "add_algorithms"}
+METHOD = {"dec": "decimate_data", "det": "detrend_data", "filt": "filter_data", "rb": "rollback", "add": "add_algorithms", "readd": "add_algorithms"}
 
 
 def op_key(op):
@@ -72,7 +73,20 @@ def coq_op(op):
         wn = op[1]
         w = "(W2 %s %s)" % (qc(wn[0]), qc(wn[1])) if isinstance(wn, (list, tuple)) else "(W1 %s)" % qc(wn)
         return '(Filter %s %d%%nat "%s")' % (w, op[2], op[3])
-    return "Rollback" if op[0] == "rb" else "AddAlg"
+    return "Rollback" if op[0] == "rb" else "(AddAlg %d%%nat)" % op[1]
+
+
+def model_ops(ops):
+    """The model's view of a history: every add_algorithms names the algorithm INSTANCE it passes (fresh instance = the
+    call's position; re-added instance = the name of the one added last)."""
+    out, last = [], None
+    for i, op in enumerate(ops, 1):
+        if op[0] in ("add", "readd"):
+            last = i if (op[0] == "add" or last is None) else last
+            out.append(("add", last))
+        else:
+            out.append(op)
+    return out
 
 
 class Letters:
@@ -215,7 +229,8 @@ def parse_state(s):
     last = None
     if f[7] != "-":
         a, b = f[7].split("@", 1)
-        last = (parse_q(a), views(b))
+        nm, a = a.split(":", 1)
+        last = (parse_q(a), views(b), int(nm))
     return dict(fs=parse_q(f[0]), dt=parse_q(f[1]), Ndats=[int(x) for x in f[2].split()], Ts=[parse_q(x) for x in f[3].split()],
                 cur=terms, data=views(f[5]), nbound=int(f[6]), last=last)
 
@@ -266,7 +281,7 @@ def reference(cfg, since):
     else:
         arrs, fsx = reference(cfg, since[:-1])
         op = since[-1]
-        if isinstance(arrs, Exception) or op[0] in ("rb", "add"):
+        if isinstance(arrs, Exception) or op[0] in ("rb", "add", "readd"):
             r = (arrs, fsx)
         else:
             try:
@@ -322,7 +337,8 @@ class Impl:
         self.user = [np.array(a, copy=True) for a in cfg.pristine]   # the arrays handed to the constructor
         self.user_refs = [list(r) for r in cfg.refs]
         self.user_list = list(self.user)
-        self.algs = []   # (algorithm, since-at-bind-time)
+        self.algs = []   # [algorithm, since-at-(re)bind-time, site], one entry per instance
+        self.last_alg = None
         if cfg.single:
             self.obj = SingleSetup(self.user[0], fs=cfg.fs0)
         else:
@@ -340,8 +356,12 @@ class Impl:
         elif op[0] == "rb":
             o.rollback()
         else:
-            alg = (FDD if self.cfg.single else FDD_MS)(name="alg%d" % idx)
+            if op[0] == "readd" and self.last_alg is not None:
+                alg = self.last_alg            # the SAME object under the SAME name
+            else:
+                alg = (FDD if self.cfg.single else FDD_MS)(name="alg%d" % idx)
             o.add_algorithms(alg)
+            self.last_alg = alg
             return alg
         return None
 
@@ -478,21 +498,24 @@ def check_state(ctx, rec, cfg, im, ops, i, since, q_last, mstates, case, reporte
         rec.fail("correspondence", "%s: comparison with the model failed (%s: %s)" % (site, type(e).__name__, e), case, "C14:%s:corr-crash" % cls)
 
 
-def check_alg(ctx, rec, cfg, alg, since, mlast, site, case, when):
-    """What add_algorithms handed over (checked when bound and again at the end of the history)."""
+def check_alg(ctx, rec, cfg, alg, since, mlast, site, case, when, name=None):
+    """After add_algorithms(alg): alg.data / fs / dt are those of the setup at that moment, whether or not alg had been added
+    before (checked when bound or re-bound, and again at the end of the history)."""
     arrs, fsx = reference(cfg, since)
+    sfx = {"at binding": "", "at re-binding of an instance added before": "-readd"}.get(when, "-later")
     try:
         if not handed_ok(cfg, alg.data, arrs):
             rec.fail("oracle", "%s: the data of an algorithm added after the calls differ from the same SciPy calls applied to the initial data (%s)" % (site, when),
-                     case, "C14:%s:alg-data%s" % (site, "" if when == "at binding" else "-later"))
+                     case, "C14:%s:alg-data%s" % (site, sfx))
         if not relclose(alg.fs, fsx) or not relclose(alg.dt, 1 / fsx):
-            rec.fail("oracle", "%s: algorithm fs/dt = %r/%r, data are sampled at %s" % (site, alg.fs, alg.dt, float(fsx)), case, "C14:%s:alg-fs" % site)
+            rec.fail("oracle", "%s: algorithm fs/dt = %r/%r, data are sampled at %s (%s)" % (site, alg.fs, alg.dt, float(fsx), when), case,
+                     "C14:%s:alg-fs%s" % (site, "-readd" if sfx == "-readd" else ""))
     except Exception as e:
         rec.fail("oracle", "%s: algorithm data unreadable (%s: %s)" % (site, type(e).__name__, e), case, "C14:%s:alg-attributes" % site)
     if mlast is not None:
         try:
             hd = [alg.data] if cfg.single else list(alg.data)
-            ok = relclose(alg.fs, mlast[0]) and len(hd) == len(mlast[1]) and all(view_ok(cfg, v, h) is not False for v, h in zip(mlast[1], hd))
+            ok = (name is None or mlast[2] == name) and relclose(alg.fs, mlast[0]) and len(hd) == len(mlast[1]) and all(view_ok(cfg, v, h) is not False for v, h in zip(mlast[1], hd))
         except Exception:
             ok = False
         if not ok:
@@ -514,6 +537,7 @@ def run_history(ctx, rec, cfg, ops, model, all_steps):
         rec.fail("correspondence", "%s(...) accepted a layout the model rejects (%s)" % (cfg.cls, model[0][0]["err"]), case, "C14:%s:corr-init" % cfg.cls)
         return False
     since, q_last, reported = [], None, set()
+    names = [o[1] if o[0] == "add" else None for o in model_ops(ops)]
     if all_steps or not ops:
         check_state(ctx, rec, cfg, im, ops, 0, since, q_last, [m[0] for m in model], dict(case, step=0), reported)
     for i, op in enumerate(ops, 1):
@@ -556,12 +580,19 @@ def run_history(ctx, rec, cfg, ops, model, all_steps):
             q_last = None
         elif op[0] == "dec":
             q_last = op[1]
-        if op[0] == "add":
-            im.algs.append((alg, list(since), site))
+        rebound = False
+        if op[0] in ("add", "readd"):
+            old = [e for e in im.algs if e[0] is alg]
+            rebound = bool(old)
+            if old:
+                old[0][1] = list(since)      # the same instance added again: it must now hold the present data
+            else:
+                im.algs.append([alg, list(since), site])
         # sampling attributes and the user's arrays after every call; arrays and the model state after the last call (or every call)
         check_state(ctx, rec, cfg, im, ops, i, since, q_last, mst, step_case, reported, full=mst is not None)
-        if mst is not None and op[0] == "add":
-            check_alg(ctx, rec, cfg, alg, since, mst[0].get("last") if "err" not in mst[0] else None, site, step_case, "at binding")
+        if op[0] in ("add", "readd") and (mst is not None or rebound):
+            check_alg(ctx, rec, cfg, alg, since, mst[0].get("last") if (mst is not None and "err" not in mst[0]) else None, site, step_case,
+                      "at re-binding of an instance added before" if rebound else "at binding", names[i - 1])
     # algorithms bound on the way still hold what they were given
     for alg, s_at, site in im.algs:
         check_alg(ctx, rec, cfg, alg, s_at, None, site, dict(case, step=len(ops)), "at the end of the history")
@@ -580,7 +611,7 @@ def model_eval(ctx, letters, jobs, chunk):
         variants = ["true", "false"] if cfg.single else ["false"]   # present-code duration formula first for SingleSetup
         for k in range(0, len(idxs), chunk):
             part = idxs[k:k + chunk]
-            hs = clist([clist([letters.name(o) for o in jobs[j][1]]) for j in part])
+            hs = clist([clist([letters.name(o) for o in model_ops(jobs[j][1])]) for j in part])
             for v, pc in enumerate(variants):   # the second variant differs in the durations only (C14_present_same_but_T): print those
                 fn = ("showTraces" if all_steps else "showFinals") if v == 0 else ("showTsTraces" if all_steps else "showTsFinals")
                 exprs.append("%s %s %s %s" % (fn, pc, cfg.coq_args(), hs))
@@ -618,7 +649,7 @@ def random_cfg(rng, seed, alpha):
 def run(ctx):
     rec = Recorder(ctx)
     letters = Letters()
-    ctx.extra["rule"] = ("histories = every word of length 1..L (L=3 quick, 4 thorough) over 9-letter alphabets of calls, on fixed and random "
+    ctx.extra["rule"] = ("histories = every word of length 1..L (L=3 quick, 4 thorough) over 10-letter alphabets of calls (add_algorithms both with a fresh instance and with the instance added last), on fixed and random "
                          "SingleSetup / MultiSetup_PreGER configurations (1-3 datasets, 2-5 channels, any reference layout), plus sampled words of "
                          "length 5 checked after every call, plus a malformed stream (undocumented keywords, invalid reference layouts); a history is "
                          "non-trivial when it contains at least one data-changing call; distinct by hash of (configuration, history)")
@@ -695,7 +726,7 @@ def run(ctx):
         ctx.hist("length", len(ops))
         ctx.hist("datasets", len(cfg.shapes))
         for o_ in ops:
-            ctx.hist("call", METHOD[o_[0]] + ("(q=%d)" % o_[1] if o_[0] == "dec" else ""))
+            ctx.hist("call", METHOD[o_[0]] + ("(q=%d)" % o_[1] if o_[0] == "dec" else "(same instance)" if o_[0] == "readd" else ""))
         if j < ncorpus or (j % 997 == 0):
             ctx.sample(dict(cfg.desc(), ops=[list(o) for o in ops], judged_to_end=judged), limit=6)
     ctx.extra["impl_cpu_s"] = round(time.process_time() - t1, 1)
